@@ -27,7 +27,7 @@ func init() {
 			"invalid UTF-8, the two threshold fields around their coupled bounds, pairs perturbed together). Oracle 1: Validate()==nil iff an independent restatement of the documented " +
 			"constraints (plus storability in the JSON manifest) holds. Oracle 2: invalid => SaveManifest fails and the directory is byte-identical; valid => LoadConfigFromManifest returns an " +
 			"equal configuration. Oracle 3 (every 25th case): a database created with a non-default configuration is reopened: MANIFEST unchanged, loads to the same configuration; for every " +
-			"truncation length of the MANIFEST and for valid-JSON-but-invalid rewrites NewEngineFacade fails and leaves manifest, log and table files byte-identical. " +
+			"truncation length of the MANIFEST and for valid-JSON-but-invalid rewrites NewEngineFacade fails and leaves manifest, log and table files byte-identical; the same for a MANIFEST that exists but cannot be read (symbolic link loop, directory). " +
 			"distinct = hash of the field assignment; non-trivial = at least one field differs from the default",
 		Assumptions: []string{"the documented constraints are those stated in pkg/config (messages of Validate) and docs/config.md", "a missing MANIFEST is a new database, not an unreadable configuration"},
 		NumCases: func(tier string) int {
@@ -354,5 +354,33 @@ func engineConfigCheck(c *core.Ctx, res *core.Result) {
 			return
 		}
 	}
-	os.WriteFile(filepath.Join(dir, "MANIFEST"), stored, 0644)
+	// a MANIFEST that exists but cannot be read at all (not "no manifest yet"): a symbolic link loop, a directory
+	mp := filepath.Join(dir, "MANIFEST")
+	for _, form := range []string{"symlink_loop", "directory"} {
+		os.RemoveAll(mp)
+		switch form {
+		case "symlink_loop":
+			if err := os.Symlink("MANIFEST", mp); err != nil {
+				continue
+			}
+		case "directory":
+			os.Mkdir(mp, 0755)
+		}
+		before := snapshotDir(dir)
+		e, err := engine.NewEngineFacade(dir)
+		res.Count("unreadable_manifest_opens", 1)
+		if err == nil {
+			e.Close()
+			res.Violate("damaged_manifest_accepted", fmt.Sprintf("NewEngineFacade opened an existing database whose MANIFEST exists but cannot be read (%s) - with default settings", form), map[string]string{"manifest_form": form})
+			os.RemoveAll(mp)
+			return
+		}
+		if d := diffSnap(before, snapshotDir(dir)); d != "" {
+			res.Violate("failed_open_side_effect", fmt.Sprintf("NewEngineFacade failed (%v) on an unreadable MANIFEST (%s) but %s", err, form, d), nil)
+			os.RemoveAll(mp)
+			return
+		}
+	}
+	os.RemoveAll(mp)
+	os.WriteFile(mp, stored, 0644)
 }
